@@ -26,11 +26,18 @@ type c18Case struct {
 	Seq    []string `json:"seq"`
 	Table  int      `json:"table"`
 	PutBuf bool     `json:"put_buf,omitempty"` // the "reuse the Put buffer" scenario instead
+	// Pre: what happened to the store between the Put and the read that hands the value out
+	// ("fill": neighbours written until the entry's table is sealed and a new one is active;
+	// "compact": compaction of every partition; "churn" as in the follow-up events)
+	Pre []string `json:"pre,omitempty"`
 }
 
 func (c c18Case) String() string {
 	if c.PutBuf {
 		return fmt.Sprintf("caller overwrites its Put buffer after Put returned, via %s, table %d", c.Path, c.Table)
+	}
+	if len(c.Pre) > 0 {
+		return fmt.Sprintf("Put, then [%s], then value from %s via %s, then [%s], table %d", strings.Join(c.Pre, " ; "), c.Handle, c.Path, strings.Join(c.Seq, " ; "), c.Table)
 	}
 	return fmt.Sprintf("value from %s via %s, then [%s], table %d", c.Handle, c.Path, strings.Join(c.Seq, " ; "), c.Table)
 }
@@ -69,6 +76,12 @@ func c18Cases(tier string) []c18Case {
 						continue
 					}
 					cs = append(cs, c18Case{Handle: h, Path: p, Seq: s, Table: t})
+					// the same with the entry no longer in the active table when it is read
+					if t == 128 && (len(s) == 1 || tier == "thorough") {
+						for _, pre := range [][]string{{"fill"}, {"fill", "compact"}, {"churn"}} {
+							cs = append(cs, c18Case{Handle: h, Path: p, Seq: s, Table: t, Pre: pre})
+						}
+					}
 				}
 			}
 		}
@@ -141,6 +154,56 @@ func c18Run(cs c18Case) (string, string) {
 	const orig = "original-1"
 	if err := ownerDM.Put(ctx, key, []byte(orig)); err != nil {
 		return "setup", err.Error()
+	}
+	fill := 0
+	churn := func() {
+		// write and delete neighbours in the same partition so that tables fill up, get
+		// compacted, recycled and reused
+		part := cl.PartID("d", key)
+		n := 0
+		cl.FindKey(fmt.Sprintf("c%d-", fill), func(k string) bool {
+			if cl.PartID("d", k) == part {
+				ownerDM.Put(ctx, k, []byte("ZZZZZZZZZZZZZZZZZZZZ"))
+				ownerDM.Delete(ctx, k)
+				n++
+			}
+			return n >= 6
+		})
+		fill++
+		owner.DB.VerifDMap().VerifCompactPartition(part)
+		n = 0
+		cl.FindKey(fmt.Sprintf("d%d-", fill), func(k string) bool {
+			if cl.PartID("d", k) == part {
+				ownerDM.Put(ctx, k, []byte("YYYYYYYYYYYYYYYYYYYY"))
+				n++
+			}
+			return n >= 3
+		})
+	}
+	compactAll := func() {
+		for _, m := range cl.Live() {
+			for p := uint64(0); p < cl.O.Partitions; p++ {
+				m.DB.VerifDMap().VerifCompactPartition(p)
+			}
+		}
+	}
+	for _, ev := range cs.Pre {
+		switch ev {
+		case "fill":
+			part := cl.PartID("d", key)
+			n := 0
+			cl.FindKey("f-", func(k string) bool {
+				if cl.PartID("d", k) == part {
+					ownerDM.Put(ctx, k, []byte("WWWWWWWWWWWWWWWWWWWW"))
+					n++
+				}
+				return n >= 8
+			})
+		case "compact":
+			compactAll()
+		case "churn":
+			churn()
+		}
 	}
 	// obtain the handle
 	var hb *[]byte // a byte slice the caller holds
@@ -215,7 +278,6 @@ func c18Run(cs c18Case) (string, string) {
 		return "setup", fmt.Sprintf("handle reads %q right away, expected %q", current(), snapshot)
 	}
 	mutated := false
-	fill := 0
 	for i, ev := range cs.Seq {
 		switch ev {
 		case "overwrite-same-size":
@@ -228,34 +290,9 @@ func c18Run(cs c18Case) (string, string) {
 			_, err = ownerDM.Delete(ctx, key)
 			stored = ""
 		case "churn":
-			// write and delete neighbours in the same partition so that tables fill up, get
-			// compacted, recycled and reused
-			part := cl.PartID("d", key)
-			n := 0
-			cl.FindKey(fmt.Sprintf("c%d-", fill), func(k string) bool {
-				if cl.PartID("d", k) == part {
-					ownerDM.Put(ctx, k, []byte("ZZZZZZZZZZZZZZZZZZZZ"))
-					ownerDM.Delete(ctx, k)
-					n++
-				}
-				return n >= 6
-			})
-			fill++
-			owner.DB.VerifDMap().VerifCompactPartition(part)
-			n = 0
-			cl.FindKey(fmt.Sprintf("d%d-", fill), func(k string) bool {
-				if cl.PartID("d", k) == part {
-					ownerDM.Put(ctx, k, []byte("YYYYYYYYYYYYYYYYYYYY"))
-					n++
-				}
-				return n >= 3
-			})
+			churn()
 		case "compact":
-			for _, m := range cl.Live() {
-				for p := uint64(0); p < cl.O.Partitions; p++ {
-					m.DB.VerifDMap().VerifCompactPartition(p)
-				}
-			}
+			compactAll()
 		case "mutate-handle":
 			if hb != nil {
 				for j := range *hb {
